@@ -82,11 +82,26 @@ def draw_params(kind, t, dates, rng, rows, coarse=True, boundary=0.0):
 
 
 # ----------------------------------------------------------------------------- one case
+def grad_ctx(case):
+    """evaluation context: torch.no_grad() (as MCMC.run and the optimiser's logging evaluate) or autograd enabled"""
+    import contextlib
+
+    return torch.no_grad() if case.get("mode") == "no_grad" else contextlib.nullcontext()
+
+
+def same_bits(a, b):
+    return a.shape == b.shape and a.dtype == b.dtype and torch.equal(a, b)
+
+
 def run_impl(case):
-    """everything observed on the implementation for one case; exceptions are caught per step"""
+    """everything observed on the implementation for one case; exceptions are caught per step.
+    case["mode"]: "no_grad" | "grad" | "requires_grad" (the parameter tensor is a leaf that requires grad)."""
     t = G.parse_paren(case["tree"])
     n = G.ntips(t)
-    x = torch.tensor(case["x"] if case["batched"] else case["x"][0], dtype=DT)
+    x0 = torch.tensor(case["x"] if case["batched"] else case["x"][0], dtype=DT)  # pristine copy: never handed in
+    x = x0.clone()
+    if case.get("mode") == "requires_grad":
+        x.requires_grad_(True)
     obs = {"n": n}
     try:
         m = G.make_reparam(t, case["dates"], x, case["kind"])
@@ -98,13 +113,19 @@ def run_impl(case):
         obs["build_error"] = f"{type(e).__name__}: {e}"
         return obs
     obs["model"] = m
-    obs["x"] = x
+    obs["x"] = x0
 
     def step(name, f):
         try:
             obs[name] = f()
         except Exception as e:
             obs[name + "_error"] = f"{type(e).__name__}: {str(e)[:160]}"
+
+    mutated, unstable = [], []
+
+    def untouched(what, handed, pristine):
+        if not same_bits(handed.detach(), pristine):
+            mutated.append(f"{what} changed the tensor it was given from {pristine.tolist()} to {handed.detach().tolist()}")
 
     step("preorder", lambda: [tuple(r) for r in m.preorder.tolist()])
     step("postorder", lambda: [tuple(int(v) for v in r) for r in m.postorder])
@@ -114,10 +135,55 @@ def run_impl(case):
         step("fwdidx", lambda: [tuple(r) for r in m.transform._forward_indices.tolist()])
         step("detidx", lambda: m.transform._det_indices.tolist())
         step("bounds", lambda: m.transform._bounds.tolist())
-    step("H", lambda: m.node_heights.detach().clone())
-    step("bl", lambda: m.branch_lengths().detach().clone())
-    if "H" in obs:
-        step("inv", lambda: m.transform.inv(obs["H"][..., n:]).detach().clone())
+    with grad_ctx(case):
+        step("H", lambda: m.node_heights.detach().clone())
+        untouched("node_heights", m._internal_heights.tensor, x0)
+        step("bl", lambda: m.branch_lengths().detach().clone())
+        untouched("branch_lengths()", m._internal_heights.tensor, x0)
+        try:
+            _ = m()
+            untouched("model()", m._internal_heights.tensor, x0)
+        except Exception:
+            pass
+        if "H" in obs:
+            yin = obs["H"][..., n:].clone()
+            y0 = yin.clone()
+            step("inv", lambda: m.transform.inv(yin).detach().clone())
+            untouched("transform.inv", yin, y0)
+        # the same question asked again must get the same answer (fresh evaluation after a notification)
+        if "H" in obs and "bl" in obs:
+            try:
+                m._internal_heights.fire_parameter_changed()
+                H2 = m.node_heights.detach().clone()
+                bl2 = m.branch_lengths().detach().clone()
+                if not (same_bits(H2, obs["H"]) and same_bits(bl2, obs["bl"])):
+                    unstable.append(f"node_heights first {obs['H'].tolist()} then {H2.tolist()} for unchanged parameters")
+                untouched("second node_heights", m._internal_heights.tensor, x0)
+            except Exception as e:
+                unstable.append(f"second evaluation raises {type(e).__name__}: {str(e)[:100]}")
+        # the transform called directly on ONE tensor holding ratios and root height / increments
+        try:
+            tr = m.transform
+            xin = x0.clone()
+            if case.get("mode") == "requires_grad":
+                xin.requires_grad_(True)
+            y1 = tr(xin)
+            untouched("transform(x)", xin, x0)
+            y2 = tr(xin)
+            if not same_bits(y1.detach(), y2.detach()):
+                unstable.append(f"transform(x) first {y1.tolist()} then {y2.tolist()}")
+            if "H" in obs and not same_bits(y1.detach(), obs["H"][..., n:]):
+                unstable.append(f"transform(x) = {y1.tolist()} but node_heights has {obs['H'][..., n:].tolist()}")
+            yk = y1.detach().clone()
+            ld1 = tr.log_abs_det_jacobian(xin, y1)
+            untouched("log_abs_det_jacobian (x)", xin, x0)
+            untouched("log_abs_det_jacobian (y)", y1, yk)
+            ld2 = tr.log_abs_det_jacobian(xin, y1)
+            if not same_bits(ld1.detach(), ld2.detach()):
+                unstable.append(f"log_abs_det_jacobian first {ld1.tolist()} then {ld2.tolist()}")
+        except Exception as e:
+            obs["direct_error"] = f"{type(e).__name__}: {str(e)[:160]}"
+    obs["mutated"], obs["unstable"] = mutated, unstable
     step("edges", lambda: G.dendropy_edges(m))
     return obs
 
@@ -161,6 +227,13 @@ def oracle(case, obs):
             if br[c] != h[p] - h[c] or not (br[c] >= -slack):
                 bad.append(("branch", f"branch {c}: length {br[c]} but parent-child = {h[p] - h[c]} (row {b})"))
                 break
+    mode = case.get("mode", "grad")
+    for w in obs.get("mutated", [])[:1]:
+        bad.append((f"input-mutated:{mode}", w + f" ({mode})"))
+    for w in obs.get("unstable", [])[:1]:
+        bad.append((f"not-repeatable:{mode}", w + f" ({mode})"))
+    if "direct_error" in obs:
+        bad.append((f"direct-call:{mode}", f"transform(x) / log_abs_det_jacobian raises {obs['direct_error']} ({mode})"))
     if "inv_error" in obs:
         bad.append(("inverse", f"inverse raises {obs['inv_error']}"))
     else:
@@ -456,6 +529,8 @@ def live_history(ck: Check, drv, kind, style, t, dates, batched, n_updates, rng)
     except Exception as e:
         return [("build", f"building the live model raises {type(e).__name__}: {str(e)[:120]}", steps)], steps
     cur = [list(r) for r in rows]
+    eval_mode = rng.choice(["no_grad", "no_grad", "grad"])  # how the observer reads the model
+    pristine = {i: lf[0].tensor.detach().clone() for i, lf in enumerate(leaves)}
     for k in range(n_updates):
         leaf_i = rng.randrange(len(leaves))
         p, pk, (a, b) = leaves[leaf_i]
@@ -476,9 +551,24 @@ def live_history(ck: Check, drv, kind, style, t, dates, batched, n_updates, rng)
             exp_rows = expect.tolist() if batched else [expect.tolist()]
             for r, e in zip(cur, exp_rows):
                 r[a:b] = e
-            H = m.node_heights.detach().clone()
-            bl = m.branch_lengths().detach().clone()
-            inv = m.transform.inv(H[..., n:]).detach().clone()
+            pristine[leaf_i] = u.detach().clone()
+            with grad_ctx({"mode": eval_mode}):
+                H = m.node_heights.detach().clone()
+                bl = m.branch_lengths().detach().clone()
+                inv = m.transform.inv(H[..., n:]).detach().clone()
+                # every Parameter still holds what was put into it; asking again gives the same answer
+                for li, lf in enumerate(leaves):
+                    if not same_bits(lf[0].tensor.detach(), pristine[li]):
+                        fails.append((f"input-mutated:{eval_mode}",
+                                      f"after update {k} ({mode}) reading node_heights/branch_lengths ({eval_mode}) changed "
+                                      f"parameter leaf {li} from {pristine[li].tolist()} to {lf[0].tensor.tolist()}", list(steps)))
+                        break
+                p.fire_parameter_changed()
+                H2 = m.node_heights.detach().clone()
+                if not same_bits(H2, H):
+                    fails.append((f"not-repeatable:{eval_mode}",
+                                  f"after update {k} ({mode}) node_heights is {H.tolist()} and, asked again ({eval_mode}), "
+                                  f"{H2.tolist()}", list(steps)))
             edges = G.dendropy_edges(m)
         except RecursionError:
             fails.append(("update-recursion", f"update {k} ({mode}) recurses without end", list(steps)))
@@ -523,7 +613,7 @@ def live_history(ck: Check, drv, kind, style, t, dates, batched, n_updates, rng)
             except Exception as e:
                 ck.mismatch("correspondence step failed", {"error": f"{type(e).__name__}: {e}"})
     return fails, {"tree": tr, "dates": dates, "kind": kind, "style": style, "batched": batched,
-                   "x": rows, "steps": steps}
+                   "x": rows, "steps": steps, "eval": eval_mode}
 
 
 def replay_live(obj):
@@ -554,9 +644,20 @@ def replay_live(obj):
             e_rows = from_unconstrained(pk, u).tolist() if batched else [from_unconstrained(pk, u).tolist()]
             for r, e in zip(cur, e_rows):
                 r[a:b] = e
-            H = m.node_heights.detach().clone()
-            bl = m.branch_lengths().detach().clone()
-            inv = m.transform.inv(H[..., n:]).detach().clone()
+            u0 = u.detach().clone()
+            with grad_ctx({"mode": obj.get("eval", "grad")}):
+                H = m.node_heights.detach().clone()
+                bl = m.branch_lengths().detach().clone()
+                inv = m.transform.inv(H[..., n:]).detach().clone()
+                if not same_bits(p.tensor.detach(), u0):
+                    bad.append("input-mutated")
+                    print(f"  VIOLATES [input-mutated]: reading the model ({obj.get('eval', 'grad')}) changed the parameter "
+                          f"from {u0.tolist()} to {p.tensor.tolist()}")
+                p.fire_parameter_changed()
+                H2 = m.node_heights.detach().clone()
+                if not same_bits(H, H2):
+                    bad.append("not-repeatable")
+                    print(f"  VIOLATES [not-repeatable]: node_heights {H.tolist()} then {H2.tolist()}")
         except RecursionError:
             print(f"update {k} ({st['mode']}): RecursionError")
             return 1
@@ -798,6 +899,9 @@ def run(ck: Check):
         stream = [(c, True) for c in corpus_cases() if c.get("type", "transform") == "transform"]
         stream += [(c, False) for c in generated_cases(ck)]
         for case, from_corpus in stream:
+            if "mode" not in case:
+                case["mode"] = ck.rng.choice(["no_grad", "no_grad", "grad", "requires_grad"])
+            ck.bucket("mode/" + case["mode"])
             obs = run_impl(case)
             n = obs["n"]
             key = (case["tree"], tuple(case["dates"]), case["kind"], case["batched"], case.get("k"))
@@ -817,7 +921,7 @@ def run(ck: Check):
                 ck.mismatch("correspondence step failed", {"case": case, "error": f"{type(e).__name__}: {e}"})
             for clause, what in oracle(case, obs):
                 sig = f"{case['kind']}:{clause}:{'batched' if case['batched'] else 'single'}"
-                rep = {k: case[k] for k in ("tree", "dates", "kind", "x", "batched")}
+                rep = {k: case[k] for k in ("tree", "dates", "kind", "x", "batched", "mode")}
                 rep.update({"type": "transform", "k": case.get("k"), "newick": G.newick(G.parse_paren(case["tree"]))})
                 record(sig, what, rep, case_size(case))
         # ---- consistently dated trees read with keep_branch_lengths (decimal calendar dates and ages)
@@ -924,6 +1028,7 @@ def replay(path: str) -> int:
     if typ == "transform":
         case = {k: obj[k] for k in ("tree", "dates", "kind", "x", "batched")}
         case["k"] = obj.get("k")
+        case["mode"] = obj.get("mode", "grad")
         obs = run_impl(case)
         bad = oracle(case, obs)
         print(f"tree {obj.get('newick', case['tree'])} dates {case['dates']} {case['kind']} parameters {case['x']}"
